@@ -122,6 +122,33 @@ theorem sublist_filter_map (t : Obj → Bool) (g : Obj → Obj) (hg : ∀ o, t o
       exact List.Sublist.cons_cons _ ih
 
 
+theorem rebuild_congr (f g : Obj → Obj) : ∀ (l acc : List (String × Obj)),
+    (∀ kv ∈ l, f kv.2 = g kv.2) → rebuild f acc l = rebuild g acc l
+  | [], _, _ => rfl
+  | (k, o) :: rest, acc, h => by
+    have ho : f o = g o := h (k, o) (by simp)
+    simp only [rebuild, ho]
+    exact rebuild_congr f g rest _ (fun kv hkv => h kv (by simp [hkv]))
+
+theorem rebuild_congr' (f g : Obj → Obj) (l acc : List (String × Obj))
+    (h : ∀ kv ∈ l, f kv.2 = g kv.2) : rebuild f acc l = rebuild g acc l := rebuild_congr f g l acc h
+
+/-- object rewriting that may rename targeted objects, keys following the names -/
+theorem sublist_filter_rename (t : Obj → Bool) (g : Obj → Obj) (hg : ∀ o, t o = false → g o = o)
+    (l : List (String × Obj)) (hk : ∀ kv ∈ l, kv.1 = kv.2.name) :
+    List.Sublist (l.filter fun kv => !t kv.2) (l.map fun kv => ((g kv.2).name, g kv.2)) := by
+  induction l with
+  | nil => simp
+  | cons kv rest ih =>
+    have ih' := ih (fun x hx => hk x (by simp [hx]))
+    cases ht : t kv.2 with
+    | true => simp only [List.filter_cons, ht, List.map_cons]; exact List.Sublist.cons _ ih'
+    | false =>
+      have hkv : ((g kv.2).name, g kv.2) = kv := by
+        rw [hg kv.2 ht, ← hk kv (by simp)]
+      simp only [List.filter_cons, ht, List.map_cons, hkv]
+      exact List.Sublist.cons_cons _ ih'
+
 /-! ### object-local, name-preserving rewriting -/
 
 /-- every object of every schema rewritten in place: keys, order, schema-level fields kept -/
